@@ -31,6 +31,7 @@ CLAUSES = {
     "cap.after_pre_failure": {"C08", "C01"},
     "old.not_prestate": {"C08"},
     "old.factory_not_given": {"C08", "C09"},
+    "cap.before_preconditions": {"C08", "C01", "C16"},
     "msg.replaced_by_other_exception": {"C07", "C09", "C01", "C02"},
     "post.skipped_on_return": {"C02"},
     "post.evaluated_after_body_raise": {"C02"},
@@ -168,6 +169,8 @@ def name_clause(diag: dict, prog: dict) -> str:
     # different events ---------------------------------------------------------------------------------
     a_role = role_of(prog, act[ID]) if ae in ("cond.in", "errf.in") else ""
     e_role = role_of(prog, exp[ID]) if ee in ("cond.in", "errf.in") else ""
+    if ae == "cap.in" and ee == "cond.in" and e_role == "pre":
+        return "cap.before_preconditions"       # a snapshot is captured although the preconditions were not yet passed
     if ee == "cond.in":
         if ph == "reeval":
             return "msg.reeval"
